@@ -47,6 +47,12 @@ def main():
             out['demo_without'] = rc0
         rc, o = sh(f'git apply {patch}', cwd=scratch)
         if rc:
+            # the patch was made against an older HEAD: merge it (the blobs named in its index lines are in the repo)
+            rc, o = sh(f'git apply -3 {patch}', cwd=scratch)
+            out['applied_with_3way_merge'] = (rc == 0)
+            if rc == 0 and 'with conflicts' in o:
+                rc = 1
+        if rc:
             print('PATCH DOES NOT APPLY:', o)
             out['applies'] = False
             print(json.dumps(out))
